@@ -264,6 +264,63 @@ def to_obj(a):
     return out.view(SymArray)
 
 
+class _ComplexObjectDtype:
+    """dtype reported by CSymArray: an object array whose entries denote complex numbers (numpy kind 'c')"""
+
+    kind = "c"
+    name = "complex128"
+    type = complex
+
+    def __eq__(self, o):
+        return o is object or (isinstance(o, _np.dtype) and o == _np.dtype(object)) or isinstance(o, _ComplexObjectDtype)
+
+    def __ne__(self, o):
+        return not self.__eq__(o)
+
+    def __hash__(self):
+        return hash("complex-object")
+
+
+class _PartArray(SymArray):
+    """writable real / imaginary part of a CSymArray: numpy's `.real` / `.imag` of a complex array are VIEWS, so a
+    store into the part (also `out=part`) is written through to the parent entry by entry"""
+
+    _parent = None
+    _part = None
+
+    def __setitem__(self, idx, value):
+        _np.ndarray.__setitem__(self.view(_np.ndarray), _concrete_index(idx), _unview(value) if isinstance(value, _np.ndarray) else value)
+        par = self._parent
+        if par is None:
+            return
+        pb = par.view(_np.ndarray)
+        sb = self.view(_np.ndarray)
+        for i in _np.ndindex(*pb.shape):
+            old = Sym.const(pb[i] if pb[i] is not None else 0)
+            new = Sym.const(sb[i] if sb[i] is not None else 0)
+            pb[i] = (new + Sym.const(1j) * old.imag) if self._part == "real" else (old.real + Sym.const(1j) * new)
+
+
+class CSymArray(SymArray):
+    """SymArray standing for a numpy array of COMPLEX dtype: reports dtype.kind == 'c'; real / imag are write-through parts"""
+
+    dtype = property(lambda self: _ComplexObjectDtype())
+
+    def _partview(self, which):
+        base = self.view(_np.ndarray)
+        out = _np.empty(base.shape, dtype=object)
+        for i in _np.ndindex(*base.shape):
+            v = Sym.const(base[i] if base[i] is not None else 0)
+            out[i] = v.real if which == "real" else v.imag
+        r = out.view(_PartArray)
+        r._parent = self
+        r._part = which
+        return r
+
+    real = property(lambda self: self._partview("real"))
+    imag = property(lambda self: self._partview("imag"))
+
+
 def _unview(a):
     return a.view(_np.ndarray) if isinstance(a, SymArray) else a
 
@@ -506,6 +563,27 @@ class ExpSym:
 
     def __neg__(self):
         return ExpSym(_inv_scale(self.v))
+
+    def __radd__(self, o):
+        return self.__add__(o)
+
+    def __rsub__(self, o):
+        return (-self).__add__(o)
+
+    def __mul__(self, o):
+        # k * e for an integer constant k: 2**(k e) = v**k
+        if isinstance(o, (int, _np.integer)) and not isinstance(o, bool):
+            k = int(o)
+            if k == 0:
+                return ExpSym(Sym.const(1))
+            base = self.v if k > 0 else _inv_scale(self.v)
+            r = base
+            for _ in range(abs(k) - 1):
+                r = r * base
+            return ExpSym(r)
+        return NotImplemented
+
+    __rmul__ = __mul__
 
     def __repr__(self):
         return "log2(%r)" % (self.v,)
@@ -887,7 +965,7 @@ def _like(fn):
         if _is_symclass(dtype) or d.kind in "fciuO":
             r = _np.empty(a0.shape, dtype=object)
             r.fill(1 if fn is _np.ones_like else 0)
-            return r.view(SymArray)
+            return r.view(CSymArray if isinstance(a0, CSymArray) and dtype is None else SymArray)
         return wrap(fn(_unview(a0), dtype=dtype, **k))
 
     return f
